@@ -1196,7 +1196,10 @@ unsafe impl<RW: QueueRW<T>, T: Send> Send for InnerSend<RW, T> {}
 unsafe impl<RW: QueueRW<T>, T: Send> Send for InnerRecv<RW, T> {}
 unsafe impl<RW: QueueRW<T>, T: Send> Send for FutInnerSend<RW, T> {}
 unsafe impl<RW: QueueRW<T>, T: Send> Send for FutInnerRecv<RW, T> {}
-unsafe impl<RW: QueueRW<T>, R, F: FnMut(&T) -> R, T> Send for FutInnerUniRecv<RW, R, F, T> {}
+unsafe impl<RW: QueueRW<T>, R, F: FnMut(&T) -> R + Send, T: Send> Send
+    for FutInnerUniRecv<RW, R, F, T>
+{
+}
 
 /// Usage: futures_multiqueue(`capacity`)
 /// This is equivalent to `futures_multiqueue_with(capacity,50,20)`.
